@@ -2016,3 +2016,59 @@ func oneRequestPerHash(c *Ctx, r *Report, rule string) {
 	}
 	r.Floor(rule, "requests to the block store", n, 2)
 }
+
+// candidatesChosenByIdentityOnly: which entries of the other log a merge takes over is decided by what the
+// destination already holds and by the log id — by nothing else the entry carries. A test on the entry's content
+// (payload, version, clock, key) in the walk that computes the candidates makes a replica skip, silently and for
+// good, an entry its writer holds, together with everything only reachable through it.
+func candidatesChosenByIdentityOnly(c *Ctx, r *Report, rule string) {
+	p := c.P
+	diff := p.Func("", "", "difference")
+	sf := p.SSAFunc(diff)
+	isEntry := func(t types.Type) bool { return t != nil && isNamed(t, p.pkgPath("iface"), "IPFSLogEntry") }
+	allowed := map[string]bool{"GetLogID": true, "GetHash": true, "GetNext": true}
+	n := 0
+	allInstrs(sf, false, func(ins ssa.Instruction) {
+		call, ok := ins.(*ssa.Call)
+		if !ok {
+			return
+		}
+		collects := false
+		if call.Call.IsInvoke() && call.Call.Method.Name() == "Set" && len(call.Call.Args) == 2 && isEntry(call.Call.Args[1].Type()) {
+			collects = true // an entry is put into the result
+		}
+		if b, ok := call.Call.Value.(*ssa.Builtin); ok && b.Name() == "append" {
+			collects = true // a hash is put on the stack of the walk
+		}
+		if !collects {
+			return
+		}
+		n++
+		bad := ""
+		var badPos token.Pos
+		for _, cnd := range controlConds(call.Block()) {
+			for x := range backSlice(cnd, nil) {
+				cc, ok := x.(*ssa.Call)
+				if !ok || x.Parent() != sf {
+					continue
+				}
+				switch {
+				case cc.Call.IsInvoke() && isEntry(cc.Call.Value.Type()) && !allowed[cc.Call.Method.Name()]:
+					bad, badPos = cc.Call.Method.Name()+"() of the entry", cc.Pos()
+				case !cc.Call.IsInvoke():
+					if cal := cc.Call.StaticCallee(); cal != nil {
+						for _, a := range cc.Call.Args {
+							if isEntry(a.Type()) {
+								bad, badPos = cal.Name()+"(entry)", cc.Pos()
+							}
+						}
+					}
+				}
+			}
+		}
+		r.Check(bad == "", rule, r.Key(rule, diff, "candidate-test", ""), badPosOr(badPos, call.Pos()),
+			"the step that takes an entry (or follows a link) is controlled only by what the destination holds and the log id",
+			fmt.Sprintf("the walk that computes the entries to merge takes an entry, or follows its links, only if %s says so (%s): an entry its writer accepted is skipped by the replicas that merge it, with everything only reachable through it — the merge still succeeds and the replicas never converge", bad, p.Pos(badPos)))
+	})
+	r.Floor(rule, "collecting steps of the candidate walk", n, 2)
+}
